@@ -168,6 +168,17 @@ pub fn gen_c09(tier: &str, seed: u64, out: &mut Vec<String>) {
                 // invalid masks are rejected
                 out.push(format!("prot 3000 {:x}", 8 + rng.below(0x40)));
                 out.push("areas".into());
+                // permissions survive a resize (grow or shrink) of the area; accesses are judged by the same mask afterwards
+                let nl = *rng.pick(&[0x10u64, 0x30, 0x48, 0x100]);
+                out.push(format!("resize 3000 {:x}", nl));
+                out.push("areas".into());
+                let off = rng.below(nl.min(0x30) - 8);
+                out.push(format!("mrb {:x} {:x}", 0x3000 + off, 1 + rng.below(8)));
+                out.push(format!("mrx {:x}", 0x3000 + off));
+                out.push(format!("mwb {:x} {}", 0x3000 + off, hex(&rand_bytes(&mut rng, 4))));
+                out.push(format!("mw {} {:x} {:x}", 8, 0x3000 + off, rng.val_w(64)));
+                out.push("areas".into());
+                out.push(format!("mrb 3000 {:x}", nl));
             }
         }
         // the constructor's code area is R+X: not writable, fetchable
@@ -178,6 +189,13 @@ pub fn gen_c09(tier: &str, seed: u64, out: &mut Vec<String>) {
         out.push("mwb 400000 00".into());
         out.push("mrb 400000 14".into());
         out.push("mrx 400014".into());
+        // … also after the code area has been resized
+        out.push(format!("resize 400000 {:x}", 8 + rng.below(0x30)));
+        out.push("areas".into());
+        out.push("mwb 400000 00".into());
+        out.push("mw 8 400000 0".into());
+        out.push("mrx 400000".into());
+        out.push("mrb 400000 8".into());
     }
 }
 
